@@ -19,5 +19,12 @@ let handle = function
     let rs = predict oc (n_of_string k) (unhex arg) (unhex path) (unhex ident) (n_of_string prio) (n_of_string pid) (fe = "1") (drop = "1") (unhex msg) in
     "ok\t" ^ string_of_int (List.length rs) ^
     String.concat "" (List.map (fun (s, b) -> "\t" ^ string_of_int (int_of_n (sink_tag s)) ^ "\t" ^ hex (sink_name s) ^ "\t" ^ hex b) rs)
+  (* predict_el kind arg path ident prio pid el filtering drop n_msg n_path n_ident err msg *)
+  | ["predict_el"; k; arg; path; ident; prio; pid; el; fe; drop; n1; n2; n3; err; msg] ->
+    let rec nat_of_int i = if i <= 0 then O else S (nat_of_int (i - 1)) in
+    let rs = predict_el oc (n_of_string k) (unhex arg) (unhex path) (unhex ident) (n_of_string prio) (n_of_string pid) (el = "1") (fe = "1") (drop = "1")
+               (nat_of_int (int_of_string n1)) (nat_of_int (int_of_string n2)) (nat_of_int (int_of_string n3)) (unhex err) (unhex msg) in
+    "ok\t" ^ string_of_int (List.length rs) ^
+    String.concat "" (List.map (fun (s, b) -> "\t" ^ string_of_int (int_of_n (sink_tag s)) ^ "\t" ^ hex (sink_name s) ^ "\t" ^ hex b) rs)
   | _ -> "driver-error:bad-case"
 let () = main_loop handle
